@@ -87,7 +87,26 @@ func RunRouter(env *Env, prefix, in, out string) error {
 		return s
 	}
 	allScopes := "nchf-convergedcharging nchf-offlineonlycharging nchf-spendinglimitcontrol"
+	// forged tokens whose claims carry an expiry of their own (past, far future, zero): the claims of a token that does not
+	// verify say nothing
+	signExp := func(method jwt.SigningMethod, key any, exp int64) string {
+		claims := jwt.MapClaims{"iss": "nrf", "sub": "smf", "aud": "chf", "scope": allScopes, "exp": exp}
+		t := jwt.NewWithClaims(method, claims)
+		s, err := t.SignedString(key)
+		if err != nil {
+			panic(err)
+		}
+		return s
+	}
+	past, future := time.Now().Add(-time.Hour).Unix(), time.Now().Add(24*time.Hour).Unix()
+	cutSig := func(tok string, sig string) string { return tok[:strings.LastIndex(tok, ".")+1] + sig }
 	tokens := map[string]string{
+		"hs256_past":    "Bearer " + signExp(jwt.SigningMethodHS256, []byte("secret"), past),
+		"foreign_past":  "Bearer " + signExp(jwt.SigningMethodRS512, foreignKey, past),
+		"foreign_zero":  "Bearer " + signExp(jwt.SigningMethodRS512, foreignKey, 0),
+		"nosig_past":    "Bearer " + cutSig(signExp(jwt.SigningMethodRS512, foreignKey, past), ""),
+		"badsig_past":   "Bearer " + cutSig(signExp(jwt.SigningMethodRS512, nrfKey, past), "AAAA"),
+		"badsig_future": "Bearer " + cutSig(signExp(jwt.SigningMethodRS512, nrfKey, future), "AAAA"),
 		"absent":     "",
 		"garbage":    "garbage",
 		"malformed":  "Bearer abc.def.ghi",
@@ -99,8 +118,13 @@ func RunRouter(env *Env, prefix, in, out string) error {
 	}
 	// ("noscope" -- signed by the NRF key but without this service in scope -- is outside C13's statement and is
 	// accepted by the openapi dependency's VerifyOAuth; it is not probed)
-	kinds := []string{"absent", "garbage", "malformed", "hs256", "foreignkey", "rs256", "valid"}
+	kinds := []string{"absent", "garbage", "malformed", "hs256", "foreignkey", "rs256", "hs256_past", "foreign_past", "foreign_zero",
+		"nosig_past", "badsig_past", "badsig_future", "valid"}
 	seq := 0
+	caseNo := 0
+	nrfKey2, nrfPem2 := rsaCert(env.Dir, "nrf2")
+	tokens["retired"] = "Bearer " + sign(jwt.SigningMethodRS512, nrfKey, allScopes)
+	tokens["valid2"] = "Bearer " + sign(jwt.SigningMethodRS512, nrfKey2, allScopes)
 	for _, c := range cases {
 		// a subscriber with one session in debit mode, prepared with authentication off
 		self.OAuth2Required = false
@@ -124,7 +148,20 @@ func RunRouter(env *Env, prefix, in, out string) error {
 		conf.ServiceNameList = c.Services
 		cfg.Configuration = &conf
 		router := sbi.VerifNewRouter(&stubApp{cfg: &cfg, proc: env.Proc})
-		self.NrfCertPem = nrfPem
+		// the certificate path comes from the configuration through the context's own initialisation; for every second
+		// service list it is a symbolic link (certificates are commonly rolled over by re-pointing one)
+		caseNo++
+		certPath := filepath.Join(env.Dir, fmt.Sprintf("nrfcert-%d.pem", caseNo))
+		_ = os.Remove(certPath)
+		viaLink := caseNo%2 == 0
+		if viaLink {
+			_ = os.Symlink(nrfPem, certPath)
+		} else {
+			raw, _ := os.ReadFile(nrfPem)
+			_ = os.WriteFile(certPath, raw, 0o600)
+		}
+		factory.ChfConfig.Configuration.NrfCertPem = certPath
+		chf_context.InitChfContext(self)
 		self.OAuth2Required = true
 
 		var real []map[string]string
@@ -336,6 +373,67 @@ func RunRouter(env *Env, prefix, in, out string) error {
 						"status": status, "effects": effects,
 					})
 				}
+			}
+		}
+		// the NRF's key is rolled over: the configured path now holds another certificate (the link re-pointed, or the file
+		// replaced in place).  A token signed with the retired key is no longer a credential; one signed with the key in
+		// force is (vacuity guard: the roll-over has taken effect)
+		if viaLink {
+			tmp := certPath + ".new"
+			_ = os.Remove(tmp)
+			_ = os.Symlink(nrfPem2, tmp)
+			_ = os.Rename(tmp, certPath)
+		} else {
+			raw, _ := os.ReadFile(nrfPem2)
+			_ = os.WriteFile(certPath, raw, 0o600)
+		}
+		for _, ri := range router.Routes() {
+			path := ri.Path
+			path = strings.ReplaceAll(path, ":ChargingDataRef", ref)
+			path = strings.ReplaceAll(path, ":rechargingInfo", supi+"_1")
+			path = strings.ReplaceAll(path, ":OfflineChargingDataRef", "x")
+			path = strings.ReplaceAll(path, ":subscriptionId", "x")
+			for _, k := range []string{"retired", "valid2"} {
+				before := snapshot()
+				rec := httptest.NewRecorder()
+				var rb []byte
+				if ri.Method == "POST" || ri.Method == "PUT" {
+					rb = []byte(upd)
+				}
+				req := httptest.NewRequest(ri.Method, path, bytes.NewReader(rb))
+				req.Header.Set("Content-Type", "application/json")
+				req.Header.Set("Authorization", tokens[k])
+				done := make(chan struct{})
+				go func() { defer close(done); router.ServeHTTP(rec, req) }()
+				status := -1
+				select {
+				case <-done:
+					status = rec.Code
+				case <-time.After(20 * time.Second):
+				}
+				effects := []string{}
+				tok := "valid"
+				if k == "retired" {
+					tok = "retired"
+					if snapshot() != before {
+						effects = append(effects, "state")
+					}
+					if len(env.TakeNotifs()) > 0 {
+						effects = append(effects, "notification")
+					}
+				} else {
+					self.OAuth2Required = false
+					env.TakeNotifs()
+					self.OAuth2Required = true
+				}
+				dec := json.NewDecoder(bytes.NewReader(rec.Body.Bytes()))
+				var v, v2 any
+				oneJSON := dec.Decode(&v) == nil && dec.Decode(&v2) != nil
+				seq++
+				emit(map[string]any{
+					"trace": c.ID, "seq": seq, "action": "probe", "method": ri.Method, "route": ri.Path, "tok": tok, "rolled": true,
+					"link": viaLink, "status": status, "oneJson": oneJSON || k != "retired", "effects": effects,
+				})
 			}
 		}
 		self.OAuth2Required = false
